@@ -281,6 +281,7 @@ func cmdCheck(writeBaseline bool, argv []string) int {
 			funcs = append(funcs, shortName(full))
 			if c.NoPanic && (len(c.NPTags) == 0 || contains(c.NPTags, prop)) {
 				npFor[shortName(full)] = true
+				npFor[shortName(fn.String())] = true // instance of a generic function
 			}
 			if strings.HasPrefix(res.Err, "binding") {
 				unbound = append(unbound, full+": "+res.Err)
